@@ -347,3 +347,36 @@ def compat_histories(rng, n):
         ops.append({"a": "get_all_trials", "s": 1, "states": ["ALL"], "dc": 1, "as_list": 0})
         out.append({"hid": f"cp{i}", "ops": ops})
     return out
+
+
+def delete_histories(rng, n):
+    """'a deleted study and its trials are gone': trials are created, written and READ (so that every client-side cache holds
+    them), the study is deleted, and then every way of reaching the study or one of its trials is tried, also after another
+    study was created (which may reuse the raw ids on SQLite: such pokes are skipped by the replayer, finding K2)"""
+    import random
+
+    out = []
+    for i in range(n):
+        r = random.Random(rng.getrandbits(48))
+        nt = r.randint(1, 3)
+        ops = [{"a": "create_study", "name": "A", "dirs": [0]}, {"a": "create_study", "name": "B", "dirs": [1]}]
+        for _ in range(nt):
+            ops.append({"a": "create_trial", "s": 1, "tm": {"has": 0}})
+        ops.append({"a": "create_trial", "s": 2, "tm": {"has": 0}})
+        for t in range(1, nt + 1):
+            if r.random() < 0.6:
+                ops.append({"a": "set_state", "t": t, "state": "COMPLETE", "values": [r.choice(sd.FINITE)]})
+        ops += [{"a": "get_all_trials", "s": 1, "states": ["ALL"], "dc": 1, "as_list": 0},
+                {"a": "get_trial_id_from_number", "s": 1, "n": 0}, {"a": "get_trial_number", "t": 1},
+                {"a": "delete_study", "s": 1}]
+        probes = ([{"a": "get_trial_id_from_number", "s": 1, "n": k} for k in range(nt)] +
+                  [{"a": "get_trial_number", "t": t} for t in range(1, nt + 1)] +
+                  [{"a": "get_trial", "t": t} for t in range(1, nt + 1)] +
+                  [{"a": "get_all_trials", "s": 1, "states": ["ALL"], "dc": 1, "as_list": 0}, {"a": "get_n_trials", "s": 1, "state": "ALL"},
+                   {"a": "get_best_trial", "s": 1}, {"a": "get_study_name", "s": 1}, {"a": "get_study_dirs", "s": 1},
+                   {"a": "set_trial_ua", "t": 1, "key": "k1", "v": 1}, {"a": "create_trial", "s": 1, "tm": {"has": 0}},
+                   {"a": "get_trial_id_from_number", "s": 2, "n": 0}, {"a": "get_all_trials", "s": 2, "states": ["ALL"], "dc": 1, "as_list": 0}])
+        r.shuffle(probes)
+        ops += probes[: r.randint(6, len(probes))]
+        out.append({"hid": f"del{i}", "ops": ops})
+    return out
